@@ -195,7 +195,7 @@ Lemma sb_step_ref s op : ref_pre KBytes (sb_buf s) op = true ->
   sb_max (fst (sb_step s op)) = sb_max s.
 Proof.
   intros P.
-  destruct op as [d| |n|lim|hint| | | |off wh| | | |ds].
+  destruct op as [d| |n|lim|hint| | | |off wh| | | |ds|].
   - (* write *)
     cbn [sb_step ref_step fst snd]. destruct (sb_write_spec s d); auto.
   - simpl; auto.
@@ -228,6 +228,7 @@ Proof.
   - cbn [sb_step ref_step]. pose proof (sb_len_spec s) as [G1 [G2 G3]].
     destruct (sb_len s); cbn [fst snd] in *. subst; auto.
   - cbn [sb_step ref_step fst snd]. destruct (sb_writelines_spec ds s); auto.
+  - cbn [sb_step ref_step fst snd]. destruct (sb_rollover_buf s); auto.
 Qed.
 
 (* the whole history *)
